@@ -129,8 +129,8 @@ theorem rejects_iff_defect (ws : Bytes) (ps : List Pkg) (hws : isAbs ws = true) 
 
 /-! a valid, non-trivial graph: `//:a` writes `x`; alias `//p:al → //:a`; `//p:b` depends on the alias and
     writes `../x` (the same file) and the directory `d`; both are accepted because they are ordered. -/
-def exA : Target := ⟨⟨[], [97]⟩, [], [[115]], [⟨.file, [120]⟩], false, true⟩
-def exB : Target := ⟨⟨[112], [98]⟩, [⟨[112], [97, 108]⟩], [], [⟨.file, [46, 46, 47, 120]⟩, ⟨.dir, [100]⟩], false, true⟩
+def exA : Target := ⟨⟨[], [97]⟩, [], [[115]], [[42, 46, 99]], [⟨.file, [120]⟩], false, true⟩
+def exB : Target := ⟨⟨[112], [98]⟩, [⟨[112], [97, 108]⟩], [], [], [⟨.file, [46, 46, 47, 120]⟩, ⟨.dir, [100]⟩], false, true⟩
 def exPs : List Pkg := [⟨[exA], []⟩, ⟨[exB], [⟨⟨[112], [97, 108]⟩, ⟨[], [97]⟩⟩]⟩]
 def exWs : Bytes := [47, 119]
 
@@ -262,18 +262,23 @@ example : analyze exWs [⟨[{ exA with deps := [⟨[], [97]⟩] }], []⟩] = .re
 
 /-- F-direscape: a directory output outside the workspace was accepted -/
 theorem old_accepts_escaping_dir :
-    let ps : List Pkg := [⟨[⟨⟨[], [97]⟩, [], [], [⟨.dir, [46, 46, 47, 46, 46, 47, 120]⟩], false, true⟩], []⟩]
+    let ps : List Pkg := [⟨[⟨⟨[], [97]⟩, [], [], [], [⟨.dir, [46, 46, 47, 46, 46, 47, 120]⟩], false, true⟩], []⟩]
     analyzeOld exWs ps = .accept ∧ analyze exWs ps = .reject .outputEscape := by decide
 
 /-- F-selfoverlap: one target with `dir::d` and `d/x` was rejected as a conflict with itself -/
 theorem old_rejects_self_overlap :
-    let ps : List Pkg := [⟨[⟨⟨[], [97]⟩, [], [], [⟨.dir, [100]⟩, ⟨.file, [100, 47, 120]⟩], false, true⟩], []⟩]
+    let ps : List Pkg := [⟨[⟨⟨[], [97]⟩, [], [], [], [⟨.dir, [100]⟩, ⟨.file, [100, 47, 120]⟩], false, true⟩], []⟩]
     analyzeOld exWs ps = .reject .conflict ∧ analyze exWs ps = .accept := by decide
+
+/-- F-globescape: an input glob pattern pointing outside the package (`../*.c`) resolved to nothing and was accepted -/
+theorem old_accepts_escaping_glob :
+    let ps : List Pkg := [⟨[⟨⟨[112], [97]⟩, [], [], [[46, 46, 47, 42, 46, 99]], [], false, true⟩], []⟩]
+    analyzeOld exWs ps = .accept ∧ analyze exWs ps = .reject .inputEscape := by decide
 
 /-- F-dotdir: `dir::.` and a file below it, declared by unordered targets, were accepted -/
 theorem old_accepts_dot_overlap :
-    let ps : List Pkg := [⟨[⟨⟨[], [97]⟩, [], [], [⟨.dir, [46]⟩], false, true⟩,
-                            ⟨⟨[], [98]⟩, [], [], [⟨.file, [120]⟩], false, true⟩], []⟩]
+    let ps : List Pkg := [⟨[⟨⟨[], [97]⟩, [], [], [], [⟨.dir, [46]⟩], false, true⟩,
+                            ⟨⟨[], [98]⟩, [], [], [], [⟨.file, [120]⟩], false, true⟩], []⟩]
     analyzeOld exWs ps = .accept ∧ analyze exWs ps = .reject .conflict := by decide
 
 end Grog.C11
